@@ -4,6 +4,8 @@ package document
 import (
 	"encoding/xml"
 	"fmt"
+	"strconv"
+	"strings"
 )
 
 // SDT 结构化文档标签，用于目录等特殊功能
@@ -26,10 +28,41 @@ func (s *SDT) ElementType() string {
 type SDTProperties struct {
 	XMLName     xml.Name        `xml:"w:sdtPr"`
 	RunPr       *RunProperties  `xml:"w:rPr,omitempty"`
+	Tag         *SDTTag         `xml:"w:tag,omitempty"`
 	ID          *SDTID          `xml:"w:id,omitempty"`
 	Color       *SDTColor       `xml:"w15:color,omitempty"`
 	DocPartObj  *DocPartObj     `xml:"w:docPartObj,omitempty"`
 	Placeholder *SDTPlaceholder `xml:"w:placeholder,omitempty"`
+}
+
+// SDTTag 内容控件的标记（w:tag）。目录控件用它记录生成目录时请求的最大标题级别（"toc-levels:1-N"），
+// 这样文档保存并重新打开之后 UpdateTOC 仍然按原来的级别更新
+type SDTTag struct {
+	XMLName xml.Name `xml:"w:tag"`
+	Val     string   `xml:"w:val,attr"`
+}
+
+// tocLevelsTagPrefix 目录控件标记的前缀
+const tocLevelsTagPrefix = "toc-levels:1-"
+
+// tocLevelsTag 返回记录最大标题级别的标记
+func tocLevelsTag(maxLevel int) *SDTTag {
+	if maxLevel <= 0 {
+		return nil
+	}
+	return &SDTTag{Val: fmt.Sprintf("%s%d", tocLevelsTagPrefix, maxLevel)}
+}
+
+// tocLevelsFromTag 从标记中读出最大标题级别（没有记录时返回0）
+func tocLevelsFromTag(props *SDTProperties) int {
+	if props == nil || props.Tag == nil || !strings.HasPrefix(props.Tag.Val, tocLevelsTagPrefix) {
+		return 0
+	}
+	level, err := strconv.Atoi(strings.TrimPrefix(props.Tag.Val, tocLevelsTagPrefix))
+	if err != nil || level < 1 || level > 9 {
+		return 0
+	}
+	return level
 }
 
 // SDTEndPr SDT结束属性
@@ -118,6 +151,7 @@ func (d *Document) CreateTOCSDT(title string, maxLevel int) *SDT {
 				FontFamily: &FontFamily{ASCII: "宋体"},
 				FontSize:   &FontSize{Val: "21"},
 			},
+			Tag:   tocLevelsTag(maxLevel),
 			ID:    &SDTID{Val: "147476628"},
 			Color: &SDTColor{Val: "DBDBDB"},
 			DocPartObj: &DocPartObj{
